@@ -51,6 +51,12 @@ instance of the same class with the same configuration showed when it was create
 def LaterFresh (first later : α) : Prop := first = later
 def laterFreshB (first later : α) : Bool := decide (first = later)
 
+/-- "… or behaviour": what `write_<p>(v)` does on one instance (through the generated wrapper) is what that
+instance's own datatype says about `v` — not what some other instance's datatype says.  A pair is
+(outcomes of the datatype of the instance's parameter, outcomes of the writes) on the same values. -/
+def WritesOwn (l : List (α × α)) : Prop := ∀ p ∈ l, p.1 = p.2
+def writesOwnB (l : List (α × α)) : Bool := l.all (fun p => decide (p.1 = p.2))
+
 /-- validation behaviour is a function of the exported datainfo: pairs (datainfo, outcomes) -/
 def ValFunctional {β : Type} (l : List (α × β)) : Prop := ∀ a b b', (a, b) ∈ l → (a, b') ∈ l → b = b'
 def valFunctionalB {β : Type} [DecidableEq β] (l : List (α × β)) : Bool :=
@@ -76,6 +82,28 @@ def Admissible (w : World) : Op → Prop
   | .define d => w.findClass d.name = none
   | .inst n _ _ => w.findInst n = none
   | _ => True
+
+/-- every operation of the list is admissible when its turn comes -/
+def AdmissibleRun (T : Tables) : World → List Op → Prop
+  | _, [] => True
+  | w, op :: ops => Admissible w op ∧ AdmissibleRun T (step T w op) ops
+
+/-- The abstract side of the refinement: what a class is, as a function of the *declarations* only
+(`env`: class name ↦ its class body and MRO) — no heap, no definition order.  `fuel` bounds the depth of
+the inheritance chain. -/
+def pureOf (T : Tables) (env : Name → Option ClassDecl) : Nat → Name → Option ClassV
+  | 0, _ => none
+  | f + 1, n => (env n).map (fun d => pureDefine T (d.mro.tail.filterMap (pureOf T env f)) d)
+
+/-- a definition order consistent with inheritance: a class is defined with the body `env` gives it, after
+all classes of its MRO -/
+def Consistent (env : Name → Option ClassDecl) (w : World) : Op → Prop
+  | .define d => env d.name = some d ∧ ∀ m ∈ d.mro.tail, env m ≠ none → w.findClass m ≠ none
+  | _ => True
+
+def ConsistentRun (T : Tables) (env : Name → Option ClassDecl) : World → List Op → Prop
+  | _, [] => True
+  | w, op :: ops => Consistent env w op ∧ ConsistentRun T env (step T w op) ops
 
 /-- validation behaviour of the accessibles of an owner, for any validation function of datatypes -/
 def validateH {V O : Type} (val : DTree → V → O) (w : World) (o : Owner) (v : V) : List (Name × Option O) :=
